@@ -256,25 +256,3 @@ Definition fn_sound (E : list edge) (R : list label) (rows : list fnrow) : bool 
   forallb (fun e => Nat.eqb (snd e) EXIT || negb (memn (fst e) R)
                     || forallb (fun d => memn d (fn_in rows (snd e))) (fn_out rows (fst e))) E.
 
-(* ------------------------------------------------------------------------------------------ *)
-(* H: the worklist of cfg.GraphVisitor._visit_internal, fuelled.  `visit st n` returns the new state
-   and whether the node's value changed (should_revisit). *)
-Section Worklist.
-  Variable St : Type.
-  Variable visit : St -> label -> St * bool.
-  Variable children : label -> list label.
-
-  Fixpoint worklist (fuel : nat) (open : list label) (closed : list label) (st : St) : option (St * list label) :=
-    match fuel with
-    | 0 => None
-    | S f =>
-        match open with
-        | [] => Some (st, closed)
-        | n :: rest =>
-            let closed' := n :: closed in
-            let '(st', changed) := visit st n in
-            let add := filter (fun c => changed || negb (memn c closed')) (children n) in
-            worklist f (rest ++ add) closed' st'
-        end
-    end.
-End Worklist.
